@@ -35,4 +35,32 @@ def searchAndFetch (hot cold : List (Nat × ShardRes)) (offset size : Nat) (rev 
       | some (.val docs) => .ok ids total nerr p c docs
     else .ok ids total nerr p c []
 
+/-! ### proxyapi: `doSearch` + `Search` / `ComplexSearch` - what the client sees -/
+
+inductive ApiOut
+  | status (invalidArgument : Bool)   -- a gRPC status error: InvalidArgument (wants old data) or Internal
+  | refused                           -- a response carrying only Error{TOO_MANY_FRACTIONS_HIT}
+  | panic                             -- left to the recover interceptor
+  | resp (ids : List ProxySearch.ID) (docs : List Nat) (partialResp : Bool) (total : Nat)
+deriving DecidableEq, Repr
+
+/-- `makeProtoDocs`: one entry per ID; `d, _ := docs.Next()` yields the zero document once the stream has ended -/
+def protoDocs : Nat → List Doc → List Nat
+  | 0, _ => []
+  | n + 1, [] => 0 :: protoDocs n []
+  | n + 1, d :: ds => d.data :: protoDocs n ds
+
+/-- `doSearch` (parseProxyError, the ErrPartialResponse branch, processSearchErrors) followed by the response
+    assembly of `Search` -/
+def api : Full → ApiOut
+  | .err .tmf => .refused
+  | .err .wod => .status true
+  | .err _ => .status false
+  | .fetchErr => .status false
+  | .panic => .panic
+  | .ok ids total nerr p _ docs =>
+    if p then .resp (ids.map (·.1)) (protoDocs ids.length docs) true total
+    else if nerr > 0 then .status false                       -- store-reported errors: codes.Internal
+    else .resp (ids.map (·.1)) (protoDocs ids.length docs) false total
+
 end SV.ProxyRead
